@@ -329,11 +329,16 @@ def specialFKey (dt : String) (k : Nat) : Option Key :=
   | 12 => some (.num 12) | 13 => some (.num 2) | 14 => some (.num 400) | 15 => some (.num (-1))
   | _ => none
 
+/-- `specialS` of the harness: strings a text format may trip over -/
+def specialS : List String := ["#hash", "s1", "#", "x#y", "a b", "ünï", "q\"uote", "c,omma", "semi;colon", "7", "-1.5", "#2 3",
+  "tab\there"]
+
 /-- `dtInfo.genVal(vset, buf, i)` of the harness -/
 def genKey (vs : Nat) (dt : String) (buf i : Nat) : Option Key :=
   match vs with
   | 1 =>
     if dt == "f32" || dt == "f64" then specialFKey dt ((i + 3 * buf) % 16)
+    else if dt == "str" then (specialS[(i + 3 * buf) % 13]?).map Key.str
     else match bitsOf dt with
       | some _ => (specialI[(i + 5 * buf) % 20]?).bind (fromIntKey dt)
       | none => fromIntKey dt (1 + i + 37 * buf)
